@@ -765,8 +765,11 @@ class Check:
         ev = {"property_id": self.prop, "tier": self.tier, "seed": self.seed, "level": level,
               "coverage": cov, "assumptions": self.assumptions, "wall_s": round(wall, 2),
               "violations": len(self.violations)}
-        os.makedirs(os.path.join(VERIF, "evidence"), exist_ok=True)
-        path = os.path.join(VERIF, "evidence", "%s.json" % self.prop)
+        # VERIF_EVIDENCE_DIR: where runs against a scratch copy of the repository (seeded-change evaluation) put their
+        # evidence, so that they never overwrite the evidence of the registered checks
+        evdir = os.environ.get("VERIF_EVIDENCE_DIR") or os.path.join(VERIF, "evidence")
+        os.makedirs(evdir, exist_ok=True)
+        path = os.path.join(evdir, "%s.json" % self.prop)
         with open(path + ".tmp", "w") as f:
             json.dump(ev, f, indent=1, default=str)
         os.replace(path + ".tmp", path)
